@@ -158,12 +158,17 @@ class _Scn(object):
         rnd = random.Random(sub)
         g = rnd.choice(GENS + tuple(x for x in GENS if x != 'maketoeplitzCIJ'))  # the toeplitz rejection loop is the expensive one: half weight
         nmax = self.nmax
+        sparse_large = rnd.random() < 0.06  # a few connections in a large network (density below 1 %), where a sparse fast path would live
         if g == 'makerandCIJ_und':
             n = rnd.randint(2, nmax)
             p = {'n': n, 'k': rnd.randint(0, n * (n - 1) // 2)}
+            if sparse_large:
+                p = {'n': rnd.randint(24, 40), 'k': rnd.randint(0, 3)}
         elif g == 'makerandCIJ_dir':
             n = rnd.randint(2, nmax)
             p = {'n': n, 'k': rnd.randint(0, n * (n - 1))}
+            if sparse_large:
+                p = {'n': rnd.randint(24, 40), 'k': rnd.randint(0, 5)}
         elif g == 'makeringlatticeCIJ':
             n = rnd.randint(3, nmax)
             p = {'n': n, 'k': rnd.randint(1, n * (n - 1))}
